@@ -288,7 +288,8 @@ class PlanSuite(PipeSuite):
                  ("funnel", ["--gen", "funnel", "--count", "250", "--seed", s], {}),
                  ("chain", ["--gen", "chain", "--count", "150", "--seed", s], {}),
                  ("recover: ill-formed registrations caught, the same builder used on", ["--gen", "recover", "--count", "300", "--seed", s], {}),
-                 ("widestage: one stage of 60-90 groups, then systems conflicting with / depending on one of them", ["--gen", "widestage", "--count", "12", "--seed", s], {})]
+                 ("widestage: one stage of 60-90 groups, then systems conflicting with / depending on one of them", ["--gen", "widestage", "--count", "12", "--seed", s], {}),
+                 ("saturated: a stage whose groups all reach the join limit, then further systems", ["--gen", "saturated", "--count", "4", "--seed", s], {})]
         elif tier == "thorough":
             g = [("exhaustive<=3sys full", ["--gen", "exh", "--count", "1", "--seed", s], {}),
                  ("random", ["--gen", "random", "--count", "30000", "--seed", s], {}),
@@ -297,6 +298,7 @@ class PlanSuite(PipeSuite):
                  ("chain", ["--gen", "chain", "--count", "3000", "--seed", s], {}),
                  ("recover: ill-formed registrations caught, the same builder used on", ["--gen", "recover", "--count", "8000", "--seed", s], {}),
                  ("widestage: one stage of 60-90 groups, then systems conflicting with / depending on one of them", ["--gen", "widestage", "--count", "300", "--seed", s], {}),
+                 ("saturated: a stage whose groups all reach the join limit, then further systems", ["--gen", "saturated", "--count", "60", "--seed", s], {}),
                  ("random(release build)", ["--gen", "random", "--count", "6000", "--seed", str(seed + 1)], {"release": True}),
                  ("funnel(release build)", ["--gen", "funnel", "--count", "3000", "--seed", str(seed + 1)], {"release": True})]
             if not os.path.exists(C.harness_bin(True, True)):
@@ -308,6 +310,7 @@ class PlanSuite(PipeSuite):
                  ("search:chain", ["--gen", "chain", "--count", "800", "--seed", s], {}),
                  ("search:recover", ["--gen", "recover", "--count", "1500", "--seed", s], {}),
                  ("search:widestage", ["--gen", "widestage", "--count", "60", "--seed", s], {}),
+                 ("search:saturated", ["--gen", "saturated", "--count", "20", "--seed", s], {}),
                  ("search:exhaustive<=3sys stride4", ["--gen", "exh", "--count", "4", "--seed", s], {})]
         # the sequential fall-backs of the crate built without the `parallel` feature (plans must be the same: C19; barriers,
         # dependencies, exactly-once, the printed plan hold there too)
